@@ -1,17 +1,49 @@
 """C03 — exported native value re-imports to an equal element."""
+import collections
 import copy
 import datetime
 import decimal
-import math
+import keyword
 
 from harness import flatlib as fl
 from harness.core import Property
 from harness.props.c07 import _shrink_schema_value
 
 
+# ------------------------------------------------------------------ case values -> Python
+
+def decode_value(j, gens=True):
+    """Case JSON -> the Python object given to set().  Beyond flatlib's tags: {"tuple": [..]},
+    {"gen": [..]} (a generator; a plain list with gens=False), {"nt": [[field, v]..]} (namedtuple),
+    {"kd": [[key, v]..]} (dict with arbitrary hashable keys), {"junk": 1}."""
+    if isinstance(j, list):
+        return [decode_value(x, gens) for x in j]
+    if not isinstance(j, dict):
+        return j
+    if "tuple" in j:
+        return tuple(decode_value(x, gens) for x in j["tuple"])
+    if "gen" in j:
+        items = [decode_value(x, gens) for x in j["gen"]]
+        return (x for x in items) if gens else items
+    if "nt" in j:
+        cls = collections.namedtuple("NT", [k for k, _ in j["nt"]])
+        return cls(*[decode_value(v, gens) for _, v in j["nt"]])
+    if "kd" in j:
+        return {decode_value(k, gens): decode_value(v, gens) for k, v in j["kd"]}
+    if "d" in j:
+        return {k: decode_value(v, gens) for k, v in j["d"]}
+    if "pairs" in j:
+        return [(k, decode_value(v, gens)) for k, v in j["pairs"]]
+    if "junk" in j:
+        return 3.5j  # a complex number: hashable, not iterable, not dict-like, no scalar type takes it
+    return fl.decode_native(j)
+
+
 # ------------------------------------------------------------------ natives <-> driver JSON
 
 def encode_py(o):
+    """Python object -> the model's native JSON: null | {"s"} | {"a": atom} | [..] | {"t": [..]} (tuple) |
+    {"d": [[key, v]..]} | {"nt": [[field, v]..]} | {"junk": 1}."""
     if o is None:
         return None
     if isinstance(o, str):
@@ -31,10 +63,12 @@ def encode_py(o):
     if isinstance(o, datetime.time):
         return {"a": "time:%d,%d,%d,%d" % (o.hour, o.minute, o.second, o.microsecond)}
     if isinstance(o, dict):
-        return {"d": [[k, encode_py(v)] for k, v in o.items()]}
-    if isinstance(o, (list, tuple)):
-        if o and all(isinstance(x, tuple) and len(x) == 2 and isinstance(x[0], str) for x in o):
-            return {"pairs": [[k, encode_py(v)] for k, v in o]}
+        return {"d": [[encode_py(k), encode_py(v)] for k, v in o.items()]}
+    if isinstance(o, tuple) and hasattr(o, "_fields"):
+        return {"nt": [[k, encode_py(v)] for k, v in zip(o._fields, o)]}
+    if isinstance(o, tuple):
+        return {"t": [encode_py(x) for x in o]}
+    if isinstance(o, list):
         return [encode_py(x) for x in o]
     return {"junk": 1}
 
@@ -46,12 +80,15 @@ def decode(n):
         return [decode(x) for x in n]
     if "s" in n:
         return n["s"]
+    if "t" in n:
+        return tuple(decode(x) for x in n["t"])
     if "d" in n:
-        return {k: decode(v) for k, v in n["d"]}
-    if "pairs" in n:
-        return [(k, decode(v)) for k, v in n["pairs"]]
+        return {decode(k): decode(v) for k, v in n["d"]}
+    if "nt" in n:
+        cls = collections.namedtuple("NT", [k for k, _ in n["nt"]])
+        return cls(*[decode(v) for _, v in n["nt"]])
     if "junk" in n:
-        return 3.5j  # a complex number: not iterable, not dict-like, no scalar type takes it
+        return 3.5j
     tag, _, body = n["a"].partition(":")
     if tag == "i":
         return int(body)
@@ -71,19 +108,79 @@ def decode(n):
     raise ValueError(n)
 
 
+def py_iter(n):
+    """What iterating the native yields (list of natives), None if it is not iterable."""
+    if isinstance(n, list):
+        return n
+    if isinstance(n, dict):
+        if "s" in n:
+            return [{"s": c} for c in n["s"]]
+        if "t" in n:
+            return n["t"]
+        if "d" in n:
+            return [k for k, _ in n["d"]]
+        if "nt" in n:
+            return [v for _, v in n["nt"]]
+    return None
+
+
+def py_pairs(n):
+    """list(to_pairs(n)) on native JSON, None where it raises (used to find which natives can reach which
+    leaves; the model has its own toPairs)."""
+    if isinstance(n, dict) and "d" in n:
+        return [(k, v) for k, v in n["d"]]
+    if isinstance(n, dict) and "nt" in n:
+        return [({"s": k}, v) for k, v in n["nt"]]
+    items = py_iter(n)
+    if items is None:
+        return None
+    out = []
+    for item in items:
+        it = py_iter(item)
+        if it is None or len(it) != 2:
+            return None
+        out.append((it[0], it[1]))
+    return out
+
+
 def subnatives(n, acc):
+    """Every native that can be handed to a member element while set() takes n apart."""
     acc.append(n)
     if isinstance(n, dict) and "s" in n:
-        # a sequence iterates a text character by character
+        # a sequence iterates a text character by character; a 2-character text unpacks into a pair
         for c in dict.fromkeys(n["s"][:24]):
             acc.append({"s": c})
-    if isinstance(n, list):
+    elif isinstance(n, list):
         for x in n:
             subnatives(x, acc)
-    elif isinstance(n, dict) and ("d" in n or "pairs" in n):
-        for _, v in n.get("d", n.get("pairs")):
+    elif isinstance(n, dict) and "t" in n:
+        for x in n["t"]:
+            subnatives(x, acc)
+    elif isinstance(n, dict) and "d" in n:
+        for k, v in n["d"]:
+            subnatives(k, acc)
+            subnatives(v, acc)
+    elif isinstance(n, dict) and "nt" in n:
+        for _, v in n["nt"]:
             subnatives(v, acc)
     return acc
+
+
+def dup_chains(n):
+    """Value sequences a single member receives through a repeated key of one pairs list."""
+    chains = []
+    for sub in subnatives(n, []):
+        ps = py_pairs(sub)
+        if not ps:
+            continue
+        groups = {}
+        for k, v in ps:
+            if isinstance(k, dict) and "s" in k:
+                groups.setdefault(k["s"], []).append(v)
+        for vs in groups.values():
+            if len(vs) > 1 and vs not in chains:
+                chains.append(vs)
+    return chains
 
 
 def has_nan(n):
@@ -92,8 +189,12 @@ def has_nan(n):
     if isinstance(n, dict):
         if "a" in n:
             return n["a"] in ("f:nan", "dec:NaN", "dec:sNaN") or n["a"].startswith("f:nan")
-        if "d" in n or "pairs" in n:
-            return any(has_nan(v) for _, v in n.get("d", n.get("pairs")))
+        if "t" in n:
+            return any(has_nan(x) for x in n["t"])
+        if "d" in n:
+            return any(has_nan(k) or has_nan(v) for k, v in n["d"])
+        if "nt" in n:
+            return any(has_nan(v) for _, v in n["nt"])
     return False
 
 
@@ -111,9 +212,9 @@ def to_c03_schema(s, rng=None):
 
 
 def parts_of(el):
+    """Texts of the parts flatten() shows: the fields of a DateYYYYMMDD.  The members of a JoinedString are
+    visible to none of .value, .u, == (value and u) and flatten() (the joined text only)."""
     import flatland
-    if isinstance(el, flatland.JoinedString):
-        return [m.u for m in list.__iter__(el)]
     if isinstance(el, flatland.DateYYYYMMDD):
         return [el[f.name].u for f in el.field_schema]
     return []
@@ -131,10 +232,16 @@ def extract3(el, s):
     return {"seq": [extract3(m, s["member"]) for m in list.__iter__(el)]}
 
 
-def make_env3(schema, kinds, natives):
-    """adapt table for every leaf-like kind of the schema x every native that may reach it."""
+def leaf_state(el):
+    return [encode_py(el.value), el.u, parts_of(el)]
+
+
+def make_env3(schema, kinds, natives, chains=()):
+    """adapt table for every leaf-like kind of the schema x every native that may reach it (fresh
+    leaf-likes), closed under "set with the exported value"; adapt2: the same for leaf-likes that were
+    set before (the value sequences of repeated keys)."""
     ks = sorted({s["k"] for s in fl.walk_schema(schema) if s["t"] in ("leaf", "joined", "compound")})
-    adapt, blank = [], []
+    adapt, adapt2, blank = [], [], []
     seen = []
     for n in natives:
         if n not in seen:
@@ -142,8 +249,28 @@ def make_env3(schema, kinds, natives):
     for k in ks:
         cls = fl.kind_class(kinds[k])
         b = cls()
-        blank.append([k, encode_py(b.value), b.u, parts_of(b)])
+        bstate = leaf_state(b)
+        blank.append([k] + bstate)
         todo = list(seen)
+        keys2 = []
+        for chain in chains:
+            el = cls()
+            for n in chain:
+                before = leaf_state(el)
+                try:
+                    flag = el.set(decode(n))
+                except Exception as e:
+                    after = [{"junk": 1}, "!raise:" + type(e).__name__, []]
+                    flag = False
+                else:
+                    after = leaf_state(el)
+                if before != bstate and [before, n] not in keys2:
+                    keys2.append([before, n])
+                    adapt2.append([k, before, n, bool(flag)] + after)
+                    if after[0] not in todo:
+                        todo.append(after[0])
+                if after[1].startswith("!raise:"):
+                    break
         done = []
         while todo:
             n = todo.pop(0)
@@ -160,7 +287,32 @@ def make_env3(schema, kinds, natives):
             adapt.append([k, n, bool(flag), v, el.u, parts_of(el)])
             if v not in done and len(done) < 400:
                 todo.append(v)
-    return {"adapt": adapt, "blank": blank}
+    return {"adapt": adapt, "adapt2": adapt2, "blank": blank}
+
+
+def hyp_holds(schema3, elem, env, need_flag):
+    """`leafStable` of Flatland/C03.lean, in Python: every leaf of the element, set on a fresh leaf-like of
+    its kind with its own exported value (looked up in the table of the real classes), gets into the same
+    state (and reports True, with need_flag)."""
+    t = schema3["t"]
+    if t == "leaf":
+        if "v" not in elem:
+            return False
+        for k, n, flag, v, u, parts in env["adapt"]:
+            if k == schema3["k"] and n == elem["v"]:
+                return [v, u, parts] == [elem["v"], elem["u"], elem["parts"]] and (flag or not need_flag)
+        return False
+    if t == "dict":
+        if "dict" not in elem:
+            return False
+        for key, m in elem["dict"]:
+            f = next((f for f in schema3["fields"] if f["name"] == key), None)
+            if f is None or not hyp_holds(f, m, env, need_flag):
+                return False
+        return True
+    if "seq" not in elem:
+        return False
+    return all(hyp_holds(schema3["member"], m, env, need_flag) for m in elem["seq"])
 
 
 def strip_multi(s):
@@ -170,39 +322,257 @@ def strip_multi(s):
     return s
 
 
+# ------------------------------------------------------------------ generator
+
+HOSTILE_CONTAINER = [{"none": 1}, {"s": ""}, {"s": "  "}, {"s": "zzz"}, {"i": 7}, [], {"d": []}, {"b": True}, {"junk": 1},
+                     {"s": "ax"}, [{"s": "ax"}], {"tuple": []}, {"gen": []}, {"nt": []}, [{"i": 5}], [[{"s": "a"}]],
+                     [{"none": 1}], {"tuple": [{"tuple": [{"s": "a"}, {"s": "x"}, {"s": "y"}]}]}]
+NONTEXT_KEYS = [{"i": 1}, {"none": 1}, {"b": True}, {"tuple": [{"s": "a"}]}, {"i": 0}, {"junk": 1}]
+UNHASHABLE_KEYS = [[{"s": "a"}], {"d": []}, {"tuple": [[]]}]
+
+
+def _identifier(name):
+    return name.isidentifier() and not keyword.iskeyword(name) and not name.startswith("_") and name.isascii()
+
+
+def gen_value3(rng, s, kinds, hostile):
+    """A case-JSON value for set() on schema s, in the forms the property's quantifier names: native
+    objects and text forms for the leaf-likes (flatlib.gen_value); for Dicts a dict, a list / tuple /
+    generator of pairs (pairs as lists, 2-tuples or 2-character texts), a namedtuple, with partial key sets,
+    repeated keys, keys that are no texts; for sequences a list, tuple or generator."""
+    t = s["t"]
+    if t not in ("dict", "list", "array"):
+        return fl.gen_value(rng, s, kinds, hostile)
+    if rng.random() < hostile:
+        return copy.deepcopy(rng.choice(HOSTILE_CONTAINER))
+    if t in ("list", "array"):
+        n = rng.choice([0, 1, 1, 2, 2, 3, 4])
+        items = [gen_value3(rng, s["member"], kinds, hostile) for _ in range(n)]
+        r = rng.random()
+        return items if r < 0.7 else ({"tuple": items} if r < 0.85 else {"gen": items})
+    fs = s["fields"]
+    if s["mode"] != "dense" or rng.random() < 0.3:
+        fs = [f for f in fs if rng.random() < 0.7]
+        if s["mode"] != "dense":
+            rng.shuffle(fs)
+    pairs = [[f["name"], gen_value3(rng, f, kinds, hostile)] for f in fs]
+    dup = False
+    if pairs and rng.random() < 0.12:
+        # a key given twice: the second value valid for the field, invalid for it, or of the wrong shape
+        f = rng.choice([g for g in fs if g["t"] == "dict"] or fs) if rng.random() < 0.5 else rng.choice(fs)
+        r = rng.random()
+        if r < 0.4:
+            second = gen_value3(rng, f, kinds, hostile)
+        elif r < 0.7:
+            second = rng.choice([{"s": "zzz"}, {"none": 1}, {"s": ""}, {"d": []}, []])
+        else:
+            second = rng.choice([{"i": 7}, {"s": "q"}, {"junk": 1}, [{"i": 5}], {"s": "abc"}])
+        pos = rng.randint(0, len(pairs))
+        pairs.insert(pos, [f["name"], second])
+        dup = True
+    r = rng.random()
+    if not dup and r < 0.45:
+        return {"d": pairs}
+    if not dup and r < 0.53 and all(_identifier(k) for k, _ in pairs):
+        return {"nt": pairs}
+    if not dup and r < 0.57:
+        extra = [rng.choice(NONTEXT_KEYS), rng.choice([{"s": "x"}, {"none": 1}, {"i": 3}])]
+        kd = [[{"s": k}, v] for k, v in pairs]
+        kd.insert(rng.randint(0, len(kd)), extra)
+        return {"kd": kd}
+    # a sequence of pairs
+    style = rng.choice(["tuple", "tuple", "list", "mixed", "mixed"])
+    items = []
+    for k, v in pairs:
+        st = style if style != "mixed" else rng.choice(["tuple", "list", "text"])
+        if st == "text" or (len(k) == 1 and isinstance(v, dict) and set(v) == {"s"} and len(v["s"]) == 1 and rng.random() < 0.5):
+            if len(k) == 1 and isinstance(v, dict) and set(v) == {"s"} and len(v["s"]) == 1:
+                items.append({"s": k + v["s"]})        # a 2-character text unpacks into key and value
+                continue
+            st = "tuple"
+        items.append({"tuple": [{"s": k}, v]} if st == "tuple" else [{"s": k}, v])
+    q = rng.random()
+    if q < 0.05:
+        items.insert(rng.randint(0, len(items)), rng.choice(
+            [[{"s": "a"}], {"tuple": [{"s": "a"}, {"s": "x"}, {"s": "y"}]}, {"i": 5}, {"none": 1}, {"s": "abc"}, {"s": "a"}]))
+    elif q < 0.09:
+        items.insert(rng.randint(0, len(items)), [rng.choice(NONTEXT_KEYS), {"s": "x"}])
+    elif q < 0.11:
+        items.insert(rng.randint(0, len(items)), [rng.choice(UNHASHABLE_KEYS), {"s": "x"}])
+    r = rng.random()
+    return items if r < 0.6 else ({"tuple": items} if r < 0.8 else {"gen": items})
+
+
+def value_forms(v, acc):
+    """Tags describing the shapes inside a case value."""
+    if isinstance(v, list):
+        if v and all((isinstance(x, list) and len(x) == 2) or (isinstance(x, dict) and "tuple" in x and len(x["tuple"]) == 2)
+                     or (isinstance(x, dict) and set(x) == {"s"} and len(x["s"]) == 2) for x in v):
+            acc.add("form-pair-list")
+            if any(isinstance(x, dict) and set(x) == {"s"} for x in v):
+                acc.add("form-2char-text-pair")
+        for x in v:
+            value_forms(x, acc)
+    elif isinstance(v, dict):
+        for tag, name in (("tuple", "form-tuple"), ("gen", "form-generator"), ("nt", "form-namedtuple"), ("kd", "form-nontext-key-dict"),
+                          ("d", "form-dict"), ("pairs", "form-pair-list")):
+            if tag in v:
+                acc.add(name)
+                for x in v[tag]:
+                    if tag in ("tuple", "gen"):
+                        value_forms(x, acc)
+                    else:
+                        value_forms(x[1], acc)
+    return acc
+
+
+def plain_value(v):
+    """The same value with tuples / generators as lists and namedtuples as dicts (shrinking step)."""
+    if isinstance(v, list):
+        return [plain_value(x) for x in v]
+    if isinstance(v, dict):
+        if "tuple" in v:
+            return [plain_value(x) for x in v["tuple"]]
+        if "gen" in v:
+            return [plain_value(x) for x in v["gen"]]
+        if "nt" in v:
+            return {"d": [[k, plain_value(x)] for k, x in v["nt"]]}
+        if "d" in v:
+            return {"d": [[k, plain_value(x)] for k, x in v["d"]]}
+        if "kd" in v:
+            return {"kd": [[k, plain_value(x)] for k, x in v["kd"]]}
+    return v
+
+
 class C03(Property):
     id = "C03"
     title = "Exported native value re-imports to an equal element"
     proof_module = "Proofs.C03"
-    level_text = 'Lean 4 theorem `reimport`: if set(x) returned True then set(e.value) on a fresh element returns True and rebuilds the same state (Dict/SparseDict under every policy, List/Array, leaf-likes), under leaf idempotence (C04/C18); negation witness without it.'
-    level_note = "Trusted: Lean kernel + 3 standard axioms; model Flatland/C03.lean tied by correspondence; what scalars/JoinedString/DateYYYYMMDD make of a native is an input table computed from the real classes in isolation; MultiValue excluded by the property; 'strict' policy on SparseDicts outside the quantifier."
-    technique = 'Lean 4 proof (growth invariant of Dict.set + rebuild lemma); differential correspondence; Python oracle'
+    level_text = ('Lean 4 theorem `reimport`: if set(x) returned True on an element (fresh, or in any state earlier set() calls '
+                  'built) and left it in state e, then set(e.value) on a fresh element of the schema rebuilds the same state e '
+                  '(hence equal .value, .u, ==, flatten()) for Dict/SparseDict under every policy, List/Array and table-driven '
+                  'leaf-likes; the returned flag of the second set() is not claimed. Hypothesis, localised to the leaves that '
+                  'occur in e: a fresh leaf-like of the same kind set with the leaf\'s exported value gets into the leaf\'s '
+                  'state (`leafStable`, a decidable function). It is not proved of the real scalars: the Lean runner and the '
+                  'harness evaluate it per generated case on the adapt table extracted from the real classes (tags '
+                  'thm-applies / thm-hyp-fails in the evidence); where it fails the case rests on the oracle alone. '
+                  '`reimport_true`: if those leaves also report True, so does the container. Negation witness without the '
+                  'hypothesis (KF-C03-a).')
+    level_note = ("Trusted: Lean kernel + 3 standard axioms; model Flatland/C03.lean (Dict.set incl. to_pairs unpacking of any "
+                  "iterable of 2-item iterables, policies, state kept when to_pairs raises, Sequence.set, .value) tied to "
+                  "/repo/src by differential correspondence on every case; what a scalar / JoinedString / DateYYYYMMDD in a "
+                  "given state makes of a native is an input table computed from the real classes in isolation, and the "
+                  "theorem's leaf hypothesis is a statement about that table (re-adapting the exported NATIVE value; not "
+                  "C04/C18's laws, which are about re-setting the text) checked per case, not proved; the oracle states the "
+                  "property on the real code for every case, including those where the hypothesis fails. MultiValue excluded "
+                  "by the property; 'strict' policy on SparseDicts outside the quantifier.")
+    technique = ('Lean 4 proof (shape invariant of Dict.set / Sequence.set + pair-by-pair rebuild lemma); differential correspondence; '
+                 'per-case evaluation of the theorem hypothesis on real tables; Python oracle')
     theorems = [
         "Flatland.C03.Proofs.reimport",
+        "Flatland.C03.Proofs.reimport_fresh",
+        "Flatland.C03.Proofs.reimport_true",
         "Flatland.C03.Proofs.reimport_value",
-        "Flatland.C03.Proofs.stable_blank",
+        "Flatland.C03.Proofs.shaped_set",
+        "Flatland.C03.Proofs.shaped_blank",
+        "Flatland.C03.Proofs.rebuilds_of_shaped",
         "Flatland.C03.Proofs.rebuild",
-        "Flatland.C03.Proofs.grown_setPairs",
+        "Flatland.C03.Proofs.inv_setPairs",
         "Flatland.C03.Proofs.reimport_needs_leafIdem",
     ]
     trusted_base = [
-        "what a scalar / JoinedString / DateYYYYMMDD makes of a native input is an input of the model (adapt tables computed from the "
-        "real classes in isolation: C04/C18's subject)",
+        "what a scalar / JoinedString / DateYYYYMMDD in a given state makes of a native input is an input of the model (adapt tables "
+        "computed from the real classes in isolation)",
+        "the theorem's hypothesis `leafStable` (the leaves occurring in the first element re-adapt their exported value to their own "
+        "state) is evaluated on those tables per case, in Lean and in Python, not proved for all inputs",
     ]
-    assumptions = ["MultiValue excluded (the property says so); inputs are dicts, pair lists, lists, texts, scalars natives, None"]
-    rule = ("random schemas (as C01, MultiValue replaced by Array, every Dict policy) x native inputs (valid, partial dicts, pair lists, "
-            "hostile shapes); non-trivial = set() returned True on a container holding at least 2 leaves; distinct = canonical case JSON")
-    quick_n = 2500
-    thorough_n = 60000
+    assumptions = [
+        "MultiValue excluded (the property says so)",
+        "inputs: dicts (text keys; ints / None / tuples as extra keys), lists / tuples / generators of pairs (2-item lists, 2-tuples, "
+        "2-character texts; wrong arity and non-iterable items), namedtuples, repeated keys, lists / tuples / generators for sequences, "
+        "texts, scalar natives, None; other iterables and dict-likes (custom classes with keys()/items()) are not generated",
+        "field names of a Dict are texts, distinct (Dict.of enforces it); 'strict' policy not combined with SparseDict",
+        "the leaf hypothesis of `reimport` is measured, not proved: on the generated cases where set() returned True it holds for "
+        "about 99% (evidence tags thm-applies / thm-hyp-fails); the cases where it fails are the KF-C03-a inputs (pruning JoinedString "
+        "holding an empty member text), where the oracle reports the defect",
+    ]
+    rule = ("random schemas (as C01, MultiValue replaced by Array, every Dict policy, 'subset' dominant) x inputs in every form the "
+            "quantifier names (dict, pair lists with list / tuple / 2-character-text items, namedtuple, generator, partial key sets, "
+            "repeated keys, non-text keys, hostile shapes); non-trivial = set() returned True on a container holding at least 2 leaves; "
+            "distinct = canonical case JSON")
+    quick_n = 25000
+    thorough_n = 150000
 
     def corpus(self):
         S = lambda name, k=0: {"t": "leaf", "name": name, "opt": False, "k": k}
-        kinds = [fl.LEAF_KINDS[0], fl.LEAF_KINDS[4], {"type": "Joined", "sep": ",", "prune": True, "member": fl.LEAF_KINDS[0]}]
-        bool_partial = {"schema": {"t": "dict", "name": None, "opt": False, "mode": "dense", "fields": [S("b", 1), S("s", 0)]},
-                        "kinds": kinds, "value": {"d": [["s", {"s": "x"}]]}}          # fixed: Boolean None
+        kinds = [fl.LEAF_KINDS[0], fl.LEAF_KINDS[4], {"type": "Joined", "sep": ",", "prune": True, "member": fl.LEAF_KINDS[0]},
+                 {"type": "DateYMD"}, {"type": "DateMember", "name": "year"}, {"type": "DateMember", "name": "month"},
+                 {"type": "DateMember", "name": "day"}, {"type": "Joined", "sep": ",", "prune": False, "member": fl.LEAF_KINDS[0]}]
+        D = lambda fields, name=None, mode="dense": {"t": "dict", "name": name, "opt": False, "mode": mode, "fields": fields}
+        comp = lambda name: {"t": "compound", "name": name, "opt": False, "k": 3, "fields": [S("year", 4), S("month", 5), S("day", 6)]}
+        bool_partial = {"schema": D([S("b", 1), S("s", 0)]), "kinds": kinds, "value": {"d": [["s", {"s": "x"}]]}}   # fixed: Boolean None
         joined = {"schema": {"t": "joined", "name": "j", "opt": False, "k": 2, "member": S(None, 0)},
                   "kinds": kinds, "value": [{"s": "a"}, {"s": " "}, {"s": "b"}]}      # KF-C03-a
-        return [bool_partial, joined]
+        ab = D([S("a"), S("b")])
+        pair_list = {"schema": ab, "kinds": kinds, "value": [[{"s": "a"}, {"s": "x"}]]}          # a list of 2-item lists
+        two_char = {"schema": ab, "kinds": kinds, "value": [{"s": "ax"}]}                       # a 2-character text is a pair
+        one_text = {"schema": ab, "kinds": kinds, "value": {"s": "ax"}}                         # not dict-like: False
+        nt = {"schema": ab, "kinds": kinds, "value": {"nt": [["a", {"s": "x"}], ["b", {"s": "y"}]]}}
+        inner = D([S("a")], name="m")
+        dup_kept = {"schema": D([inner]), "kinds": kinds,                                       # second value not dict-like:
+                    "value": [{"tuple": [{"s": "m"}, {"d": [["a", {"s": "x"}]]}]}, {"s": "m7"}]}  # first state kept, flag False
+        dup_reset = {"schema": D([inner, S("z")]), "kinds": kinds,
+                     "value": {"gen": [[{"s": "m"}, {"d": [["a", {"s": "x"}]]}], [{"s": "m"}, {"d": []}]]}}
+        date_garbage = {"schema": D([comp("d")]), "kinds": kinds, "value": {"d": [["d", {"s": "garbage"}]]}}  # True, value None
+        date_dup = {"schema": D([comp("d")]), "kinds": kinds,                                   # None keeps the members
+                    "value": [[{"s": "d"}, {"date": [2020, 1, 2]}], [{"s": "d"}, {"none": 1}]]}
+        noprune = {"schema": {"t": "joined", "name": "j", "opt": False, "k": 7, "member": S(None, 0)},
+                   "kinds": kinds, "value": {"s": ""}}
+        int_key = {"schema": dict(ab, policy="duck"), "kinds": kinds, "value": {"kd": [[{"s": "a"}, {"s": "x"}], [{"i": 1}, {"s": "y"}]]}}
+        list_key = {"schema": dict(ab, policy="off"), "kinds": kinds, "value": [[[{"s": "a"}], {"s": "x"}]]}   # unhashable key
+        L = lambda member, name=None: {"t": "list", "name": name, "opt": False, "prune": False, "max": 1024, "member": member}
+        sx, sy = {"s": "x"}, {"s": "y"}
+        more = [
+            # pair items that are a 2-key dict (unpacks into its keys) and a 2-field namedtuple (into its values)
+            {"schema": ab, "kinds": kinds, "value": [{"d": [["a", sx], ["b", sy]]}, {"nt": [["p", {"s": "b"}], ["q", sy]]}]},
+            # a sequence iterates a dict's keys, a namedtuple's values, a text's characters
+            {"schema": L(S(None)), "kinds": kinds, "value": {"d": [["a", sx], ["b", sy]]}},
+            {"schema": L(S(None)), "kinds": kinds, "value": {"nt": [["p", sx], ["q", sy]]}},
+            {"schema": L(ab), "kinds": kinds, "value": {"s": "ab"}},
+            # an unhashable key: TypeError under every policy; a sequence swallows it
+            {"schema": ab, "kinds": kinds, "value": [[[sx], sx]]},
+            {"schema": L(dict(ab, policy="duck")), "kinds": kinds, "value": [[[{"tuple": [[]]}, sx]]]},
+            {"schema": dict(ab, policy="duck"), "kinds": kinds, "value": [[{"s": "a"}, sx], [{"tuple": [{"tuple": []}, [{"i": 1}]]}, sx]]},
+            # keys that are no texts: skipped (duck / off), KeyError (subset), KeyError (strict, before the missing ones)
+            {"schema": dict(ab, policy="duck"), "kinds": kinds, "value": [[{"none": 1}, sx], [{"tuple": [{"s": "a"}]}, sx], [{"s": "b"}, sy]]},
+            {"schema": ab, "kinds": kinds, "value": {"kd": [[{"s": "a"}, sx], [{"none": 1}, sy]]}},
+            {"schema": dict(ab, policy="strict"), "kinds": kinds, "value": {"kd": [[{"i": 3}, sy]]}},
+            {"schema": dict(ab, policy="strict"), "kinds": kinds, "value": [{"s": "ax"}, {"s": "by"}, {"s": "az"}]},
+            {"schema": dict(ab, policy="strict"), "kinds": kinds, "value": {"gen": [{"s": "ax"}]}},
+            # an unknown key inside a list member: KeyError leaves the list; a strict member's TypeError does not
+            {"schema": L(ab), "kinds": kinds, "value": [{"d": [["a", sx]]}, {"d": [["zz", sx]]}]},
+            {"schema": L(dict(ab, policy="strict")), "kinds": kinds, "value": [{"d": [["a", sx]]}]},
+            # wrong arity / non-iterable items; an empty tuple / generator / namedtuple is an empty mapping
+            {"schema": ab, "kinds": kinds, "value": [{"tuple": [{"s": "a"}, sx, sy]}]},
+            {"schema": ab, "kinds": kinds, "value": [{"tuple": [{"s": "a"}, sx]}, {"i": 5}]},
+            {"schema": D([S("a"), S("b")], mode="sparse"), "kinds": kinds, "value": {"gen": []}},
+            {"schema": D([S("a"), S("b")], mode="sparseReq"), "kinds": kinds, "value": {"nt": []}},
+            # repeated keys on leaves: 2-character texts; a DateYYYYMMDD keeps its members on None, not on garbage
+            {"schema": ab, "kinds": kinds, "value": {"tuple": [{"s": "ax"}, {"s": "ay"}]}},
+            {"schema": D([comp("d")]), "kinds": kinds,
+             "value": [[{"s": "d"}, {"date": [2020, 1, 2]}], [{"s": "d"}, {"none": 1}], [{"s": "d"}, {"s": "garbage"}], [{"s": "d"}, {"none": 1}]]},
+            {"schema": D([comp("d")]), "kinds": kinds, "value": [[{"s": "d"}, {"date": [2020, 1, 2]}], [{"s": "d"}, {"i": 7}]]},
+            # repeated key on a sparse member that is a list, and on a nested dict that is reset by the second value
+            {"schema": D([L(S(None), "l"), S("z")], mode="sparse"), "kinds": kinds,
+             "value": [[{"s": "l"}, [sx, sy]], [{"s": "l"}, {"i": 3}], [{"s": "z"}, sx]]},
+            {"schema": D([D([S("a"), comp("d")], name="m")]), "kinds": kinds,
+             "value": [[{"s": "m"}, {"d": [["d", {"date": [2020, 1, 2]}]]}], [{"s": "m"}, [[{"s": "d"}, {"none": 1}]]]]},
+            # natives of every shape handed to leaf-likes
+            {"schema": D([S("a"), {"t": "joined", "name": "j", "opt": False, "k": 7, "member": S(None, 0)}, comp("d")]), "kinds": kinds,
+             "value": [[{"s": "a"}, {"tuple": [sx]}], [{"s": "j"}, {"tuple": [sx, {"s": ""}]}], [{"s": "d"}, {"nt": [["p", sx]]}]]},
+        ]
+        return [bool_partial, joined, pair_list, two_char, one_text, nt, dup_kept, dup_reset, date_garbage, date_dup, noprune,
+                int_key, list_key] + more
 
     def generate(self, rng, n, tier):
         for _ in range(n):
@@ -214,12 +584,12 @@ class C03(Property):
                     # exercised too, except 'strict' on SparseDicts (a blank sparse member can never
                     # satisfy it, so its own exported value is rejected: outside the quantifier)
                     s["policy"] = rng.choice(["subset"] * 6 + ["duck", "off"] + (["strict"] if s["mode"] == "dense" else []))
-            yield {"schema": schema, "kinds": kinds, "value": fl.gen_value(rng, schema, kinds, hostile=0.1)}
+            yield {"schema": schema, "kinds": kinds, "value": gen_value3(rng, schema, kinds, hostile=0.1)}
 
     def _first(self, case):
         cls = fl.build_class(case["schema"], case["kinds"])
         el = cls()
-        x = fl.decode_native(case["value"])
+        x = decode_value(case["value"])
         try:
             flag = el.set(x)
         except (KeyError, TypeError) as e:
@@ -229,10 +599,12 @@ class C03(Property):
     def run_impl(self, case):
         schema = case["schema"]
         cls, el, flag, x = self._first(case)
-        xn = encode_py(x)
+        xn = encode_py(decode_value(case["value"], gens=False))
         natives = subnatives(xn, [None])
+        chains = dup_chains(xn)
         if el is None:
-            return {"first": {"raise": flag}, "again": None, "_x": xn, "_env": make_env3(schema, case["kinds"], natives)}
+            return {"first": {"raise": flag}, "again": None, "hyp_holds": None, "hyp_true": None, "_x": xn,
+                    "_env": make_env3(schema, case["kinds"], natives, chains)}
         first = {"flag": flag, "elem": extract3(el, schema), "value": encode_py(el.value)}
         el2 = cls()
         try:
@@ -241,10 +613,14 @@ class C03(Property):
         except (KeyError, TypeError) as e:
             again = {"raise": type(e).__name__}
         natives = subnatives(first["value"], natives)
-        return {"first": first, "again": again, "_x": xn, "_env": make_env3(schema, case["kinds"], natives)}
+        env = make_env3(schema, case["kinds"], natives, chains)
+        s3 = to_c03_schema(schema)
+        return {"first": first, "again": again, "hyp_holds": hyp_holds(s3, first["elem"], env, False),
+                "hyp_true": hyp_holds(s3, first["elem"], env, True), "_x": xn, "_env": env}
 
     def model_input(self, case, obs):
-        return {"schema": to_c03_schema(case["schema"]), "x": (obs or {}).get("_x"), "env": (obs or {}).get("_env") or {"adapt": [], "blank": []}}
+        return {"schema": to_c03_schema(case["schema"]), "x": (obs or {}).get("_x"),
+                "env": (obs or {}).get("_env") or {"adapt": [], "adapt2": [], "blank": []}}
 
     def oracle(self, case):
         schema = case["schema"]
@@ -327,11 +703,39 @@ class C03(Property):
         a = obs.get("again")
         if a is not None:
             t.append("again=" + ("raise-" + a["raise"] if "raise" in a else str(a.get("flag"))))
+        if f.get("flag") is True:
+            # does the Lean theorem speak about this case?  (its premise: set() returned True; its hypothesis:
+            # leafStable, evaluated on the real adapt table)
+            t.append("thm-applies" if obs.get("hyp_holds") else "thm-hyp-fails")
+            t.append("thm-true-applies" if obs.get("hyp_true") else "thm-true-hyp-fails")
+            if self.nontrivial(case, obs):
+                t.append("nontrivial-thm-applies" if obs.get("hyp_holds") else "nontrivial-thm-hyp-fails")
+        else:
+            t.append("thm-premise-not-met")
         for s in fl.walk_schema(case["schema"]):
             t.append("has-" + s["t"] + ("-" + s.get("policy", "") if s["t"] == "dict" else ""))
+        t.extend(sorted(value_forms(case["value"], set())))
+        if dup_chains(obs.get("_x")):
+            t.append("repeated-key")
+        if (obs.get("_env") or {}).get("adapt2"):
+            t.append("leaf-set-twice")
         return list(dict.fromkeys(t))
 
     def shrink_candidates(self, case):
+        pv = plain_value(case["value"])
+        if pv != case["value"]:
+            c = copy.deepcopy(case)
+            c["value"] = pv
+            yield c
+        v = case["value"]
+        for tag in (None, "tuple", "gen"):
+            items = v if (tag is None and isinstance(v, list)) else (v.get(tag) if isinstance(v, dict) and tag else None)
+            if isinstance(items, list) and case["schema"]["t"] == "dict":
+                for i in range(len(items)):
+                    c = copy.deepcopy(case)
+                    rest = items[:i] + items[i + 1:]
+                    c["value"] = rest if tag is None else {tag: rest}
+                    yield c
         yield from _shrink_schema_value(case)
 
 
